@@ -2,6 +2,7 @@ import GasolVerif.Concrete
 import GasolVerif.Show
 import GasolVerif.Models.FormulaIO
 import GasolVerif.Models.Cost
+import GasolVerif.Models.Asm
 open GasolVerif
 
 def parseWords? (s : String) : Option (List Word) :=
@@ -50,6 +51,29 @@ def handle (line : String) : String :=
     match c.toInt?, ((os.splitOn ",").filter (· ≠ "")).mapM String.toInt? with
     | some ci, some ol => if Cost.improves ci ol then "1" else "0"
     | _, _ => "error:parse"
+  | ["SPLIT", body, flags, subs] =>
+    let b := (body.splitOn ";").filter (· ≠ "")
+    let f := flags.toList.map (· == '1')
+    let real := (subs.splitOn "|").map fun p => (p.splitOn ";").filter (· ≠ "")
+    if b.length ≠ f.length then "error:flags" else
+    let model := Asm.subBlocks (b.zip f)
+    if model == real then "same" else "diff:" ++ "|".intercalate (model.map (";".intercalate ·))
+  | ["JOIN", body, subs] =>
+    let b := (body.splitOn ";").filter (· ≠ "")
+    let real := (subs.splitOn "|").map fun p => (p.splitOn ";").filter (· ≠ "")
+    if Asm.joinShared real == b && Asm.sharedOk real then "ok" else "bad"
+  | ["REBUILD", pre, subs, post, k, r] =>
+    let sp := fun (x : String) => (x.splitOn ";").filter (· ≠ "")
+    let real := (subs.splitOn "|").map sp
+    let repl : Nat → Option (List String) := fun i => if some i == k.toNat? then some (sp r) else none
+    ";".intercalate (Asm.rebuild (sp pre) real (sp post) repl)
+  | ["NEED", b] =>
+    match parseBlock? b with
+    | some B =>
+      match symExec B .init with
+      | some S => s!"{S.base} {S.stk.length}"
+      | none => "ext"
+    | none => "error:parse"
   | _ => "error:unknown-request"
 
 partial def loop (h : IO.FS.Stream) (out : IO.FS.Stream) : IO Unit := do
